@@ -36,6 +36,8 @@ func suiteC08kill(c *ctx) {
 		withAux := r.Intn(3) != 0
 		noTmp := r.Intn(3) == 0
 		seedState := r.Fork()
+		otherFs := op == "update" && r.Intn(3) == 0 // the work area on another file system
+		shm := ""
 		var oldpw []byte
 		setup := func(base string) {
 			rr := *seedState
@@ -48,6 +50,12 @@ func suiteC08kill(c *ctx) {
 			if noTmp {
 				os.RemoveAll(filepath.Join(base, ".tmp"))
 			}
+			if otherFs {
+				if shm != "" {
+					os.RemoveAll(shm)
+				}
+				shm = tmpOnOtherFs(base, c.work, 1000+i)
+			}
 		}
 		base := filepath.Join(c.work, fmt.Sprintf("kb%d", i))
 		setup(base)
@@ -55,7 +63,8 @@ func suiteC08kill(c *ctx) {
 		tr := filepath.Join(c.work, "ktrace.txt")
 		writeCase(cf, cfg, base, op, user, pw, admin)
 		evs, out, _, err := runTraced(self, cf, tr, "")
-		if err != nil || !strings.HasPrefix(out, "ok") {
+		if err != nil || !(strings.HasPrefix(out, "ok") || otherFs && shm != "") {
+			// (with the work area on another file system the operation may legitimately fail: EXDEV)
 			c.emit("law.harness.baseline_operation_succeeds "+op, tf(false))
 			continue
 		}
@@ -128,6 +137,9 @@ func suiteC08kill(c *ctx) {
 			}
 			c.emit(fmt.Sprintf("tr.kill %s %s %s %s", op, entTok(pre, user+".user"), entTok(pre, user+".admin"), ev),
 				"kv "+entTok(post, user+".user")+" "+entTok(post, user+".admin"))
+		}
+		if shm != "" {
+			os.RemoveAll(shm)
 		}
 		os.RemoveAll(base)
 	}
